@@ -32,17 +32,13 @@ type FuncResult struct {
 
 func (w *Workspace) newGen(fn *ssa.Function, ct *Contract) *Gen {
 	g := &Gen{w: w, sorts: newSorts(), top: fn, contract: ct, declared: map[string]bool{}, trusted: map[string]bool{}, unmod: map[string]bool{},
-		assumes: map[string]bool{}, inlined: map[string]bool{}, globals: map[*ssa.Global]*Cell{}, uses: map[string]bool{}, ufDecl: map[string]string{}}
+		assumes: map[string]bool{}, inlined: map[string]bool{}, globals: map[*ssa.Global]*Cell{}, uses: map[string]bool{}, ufDecl: map[string]string{}, arrElems: map[string]map[string]Val{}, worldSeen: map[string]bool{}}
 	g.entry = &State{cells: map[*Cell]Val{}, heaps: map[string]string{}}
 	g.concrete = ct != nil && ct.Concrete
 	stringsConcrete = g.concrete
 	strLits = map[string]string{}
 	strLitOrder = nil
 	typePkgCache = nil
-	// world sorts mention struct sorts
-	for _, n := range w.worldOrder {
-		g.ensureSortNames(w.world[n].Sort)
-	}
 	g.sorts.opaque["Ctx"] = true
 	if ct != nil {
 		for _, u := range ct.Uses {
@@ -316,10 +312,26 @@ func (g *Gen) frameObligations(fn *ssa.Function, ct *Contract, env *Env, exit, e
 }
 
 func (g *Gen) assembleStatic() string {
+	th := g.theoryText() // registers the string literals used by the theory
 	var b strings.Builder
 	b.WriteString(basePrelude(g.concrete))
 	b.WriteString(g.sorts.declarations())
-	b.WriteString(g.theoryText())
+	if !g.concrete && len(strLitOrder) > 0 {
+		var names []string
+		for _, v := range strLitOrder {
+			n := strLits[v]
+			names = append(names, n)
+			if n == "str_empty" {
+				continue
+			}
+			fmt.Fprintf(&b, "(declare-const %s Str) ; %q\n", n, v)
+			fmt.Fprintf(&b, "(assert (= (str_len %s) %d))\n", n, len(v))
+		}
+		if len(names) > 1 {
+			fmt.Fprintf(&b, "(assert (distinct %s))\n", strings.Join(names, " "))
+		}
+	}
+	b.WriteString(monoOptions(th))
 	return b.String()
 }
 
@@ -327,24 +339,8 @@ func (g *Gen) assembleStatic() string {
 func (g *Gen) assemble() string {
 	var b strings.Builder
 	b.WriteString(g.assembleStatic())
-	if !g.concrete && len(strLitOrder) > 0 {
-		var names []string
-		for _, v := range strLitOrder {
-			n := strLits[v]
-			if n == "str_empty" {
-				names = append(names, n)
-				continue
-			}
-			fmt.Fprintf(&b, "(declare-const %s Str) ; %q\n", n, v)
-			fmt.Fprintf(&b, "(assert (= (str_len %s) %d))\n", n, len(v))
-			names = append(names, n)
-		}
-		if len(names) > 1 {
-			fmt.Fprintf(&b, "(assert (distinct %s))\n", strings.Join(names, " "))
-		}
-	}
 	for _, l := range g.buf {
-		b.WriteString(l)
+		b.WriteString(monoOptions(l))
 		b.WriteString("\n")
 	}
 	return b.String()
@@ -354,7 +350,6 @@ func basePrelude(concrete bool) string {
 	var b strings.Builder
 	b.WriteString("(declare-sort Err 0)\n(declare-const Err_nil Err)\n")
 	b.WriteString("(declare-sort Iface 0)\n(declare-const Iface_nil Iface)\n(declare-sort Func 0)\n(declare-const Func_nil Func)\n(declare-sort Iter 0)\n")
-	b.WriteString("(declare-datatypes ((Option 1)) ((par (T) ((none) (some (val T))))))\n")
 	b.WriteString("(define-fun tquo ((a Int) (b Int)) Int (ite (>= a 0) (ite (> b 0) (div a b) (- (div a (- b)))) (ite (> b 0) (- (div (- a) b)) (div (- a) (- b)))))\n")
 	b.WriteString("(define-fun trem ((a Int) (b Int)) Int (- a (* b (tquo a b))))\n")
 	if concrete {
